@@ -36,6 +36,7 @@ int main(int argc, char **argv) {
     RUN("async_start_race", 2, true, scn::async_start_race(o, R, T, o.cases));
     RUN("queue_unblock_contended", std::min(o.threads, 4), true, scn::queue_unblock_contended(o, R, T, o.cases));
     RUN("publisher_two_publishers", o.threads, true, scn::publisher_two_publishers(o, R, T, o.cases));
+    RUN("publisher_lag_mt", 2, true, scn::publisher_lag_mt(o, R, T, o.cases));
     RUN("scheduler_pool_rearm", 1, true, scn::scheduler_pool_rearm(o, R, o.cases / 300 + 1));
     RUN("pool_nested", 1, true, scn::pool_nested(o, R, o.cases / 8 + 1));
     RUN("pool_dependent", 1, true, scn::pool_dependent(o, R, o.cases / 8 + 1));
